@@ -7,5 +7,6 @@ CONSTANTS
   MaxReplies = 4
   NonceURLs = {TRUE, FALSE}
   InitPools = {0, 1}
+  StopVals = {"zero", "neg"}
 INVARIANTS Emit TypeOK N1_FreshNonces N1_Discipline N2_Bounded N2_Cancel N3_LastReply N4_PoolCap MutexOK
 CHECK_DEADLOCK FALSE
